@@ -213,7 +213,7 @@ eval(struct expr *expr)
 						error(&tok.loc, "integer part of floating-point constant %g cannot be represented as signed integer", l->u.constant.f);
 					expr->u.constant.i = l->u.constant.f;
 				} else {
-					if (l->u.constant.f < 0.0 || l->u.constant.f >= 0x1p64)
+					if (l->u.constant.f <= -1.0 || l->u.constant.f >= 0x1p64)
 						error(&tok.loc, "integer part of floating-point constant %g cannot be represented as unsigned integer", l->u.constant.f);
 					expr->u.constant.u = l->u.constant.f;
 				}
